@@ -12,7 +12,10 @@ _DRIVE_SPEC = """    ensures
         c06(r is Ok ==> ({ let b = old(self).reader.rest(); scan_rest(b.skip(8)) == Some(final(self).reader.rest()) })),
         c04(({ let b = old(self).reader.rest();
                (b.len() >= 8 && old(self).state.abs() == m_init() && m_run(b.skip(8), m_init()) is Some) ==>
-                 r is Ok && (final(self).state.abs(), final(self).reader.rest()) == m_run(b.skip(8), m_init()).unwrap() })),
+                 r is Ok && final(self).state.abs() == m_run(b.skip(8), m_init()).unwrap().0 })),
+        c06(({ let b = old(self).reader.rest();
+               (b.len() >= 8 && old(self).state.abs() == m_init() && m_run(b.skip(8), m_init()) is Some && r is Ok) ==>
+                 final(self).reader.rest() == m_run(b.skip(8), m_init()).unwrap().1 })),
         c02(old(self).state.sizes() ==> final(self).state.sizes()),
         // total (C05): the outcome is the function t_run of the bytes, for every input
         c05(({ let b = old(self).reader.rest();
@@ -41,7 +44,8 @@ _DRIVE_LOOP = """
         ensures
             c05(t_run(b0.skip(8), a0) == (TOut::Ok { s: self.state.abs(), rest: self.reader.rest() })),
             c06(Some(self.reader.rest()) == scan_rest(b0.skip(8))),
-            c04(wf0 ==> Some((self.state.abs(), self.reader.rest())) == m_run(b0.skip(8), m_init())),
+            c04(wf0 ==> self.state.abs() == m_run(b0.skip(8), m_init()).unwrap().0),
+            c06(wf0 ==> self.reader.rest() == m_run(b0.skip(8), m_init()).unwrap().1),
             c02(old(self).state.sizes() ==> self.state.sizes()),
         decreases self.reader.rest().len(),
 """
@@ -83,8 +87,8 @@ def _front(ty):
         c07(r is Ok ==> ({ let b = self.rest(); b.len() >= 8 && scan_rest(b.skip(8)) is Some })),
         c06(r is Ok ==> ({ let b = self.rest(); scan_rest(b.skip(8)) == Some((r->Ok_0).2.rest()) })),
         c04(({ let b = self.rest(); (self.fresh() && m_message(b) is Some) ==> r is Ok
-                 && (r->Ok_0).1.sgroups().map_values(|g: IppAttributeGroup| abs_mgroup(g)) == m_message(b).unwrap().0
-                 && (r->Ok_0).2.rest() == m_message(b).unwrap().1 })),
+                 && (r->Ok_0).1.sgroups().map_values(|g: IppAttributeGroup| abs_mgroup(g)) == m_message(b).unwrap().0 })),
+        c06(({ let b = self.rest(); (self.fresh() && m_message(b) is Some && r is Ok) ==> (r->Ok_0).2.rest() == m_message(b).unwrap().1 })),
         c02((self.sizes_ok() && r is Ok) ==> groups_sizes((r->Ok_0).1.sgroups())),
         // total (C05): for every input the outcome is the function t_message of the bytes
         c05(({ let b = self.rest(); self.fresh() ==> match t_message(b) {
